@@ -650,8 +650,10 @@ C15_Step(pre, rec, post, gh) ==
                             /\ <<gh.red[i].src, gh.red[i].due, gh.red[i].a, gh.red[i].dst, gh.red[i].d>> \notin post.redIdx
                             /\ gh.red[i].due \notin DOMAIN post.redQ,
                      "matured redelegation entry (due " \o ToString(gh.red[i].due) \o ") survived the end-of-block at " \o ToString(pre.now)) : i \in gone}
-        \cup UNION {Check("C15", <<gh.red[i].d, gh.red[i].a, gh.red[i].dst, gh.red[i].due>> \in DOMAIN post.redRec
+        \cup UNION {CheckK("C15", <<gh.red[i].d, gh.red[i].a, gh.red[i].dst, gh.red[i].due>> \in DOMAIN post.redRec
                                  /\ <<gh.red[i].src, gh.red[i].due, gh.red[i].a, gh.red[i].dst, gh.red[i].d>> \in post.redIdx,
+                     \* K4: a merged record keeps one source; after a re-import the by-source key of the other source is gone
+                     IF MergedRecord(gh, <<gh.red[i].d, gh.red[i].dst, gh.red[i].a>>) THEN "K4" ELSE "",
                      "pending redelegation entry (due " \o ToString(gh.red[i].due) \o ") disappeared at the end-of-block at " \o ToString(pre.now)) : i \in stay}
   ELSE {}
 
